@@ -40,8 +40,27 @@ def generate(rng, tier, index):
     im = wp["images"][k]
     pre = [select.gen_selection(rng, im["lines"], im["pixels"])
            for _ in range(rng.choice([0, 1, 2, 3]))]
-    return {"world": wp, "rpcs": rpcs, "cached": rng.random() < 0.4, "pre_image": k,
+    plan = {"world": wp, "rpcs": rpcs, "cached": rng.random() < 0.4, "pre_image": k,
             "pre_reads": pre}
+    if rng.random() < 0.15:
+        # a companion product of the OTHER record type whose line records have exactly the same
+        # length (544 + 8 p = 192 + 2 q), opened and loaded in the same interpreter first with
+        # the same request sizes: whatever the library keeps between products must not leak
+        p1 = rng.randint(1, 8)
+        q = 176 + 4 * p1
+        lines = rng.randint(2, 12)
+        main_is_11 = wp["level"] == "1.1"
+        for im in wp["images"]:
+            im.update(lines=lines, pixels=p1 if main_is_11 else q)
+        comp = world.gen_world_plan(rng, backends=(wp["backend"],), max_images=2, large=0.0,
+                                    huge=0.0, level="1.5" if main_is_11 else "1.1")
+        for im in comp["images"]:
+            im.update(lines=lines, pixels=q if main_is_11 else p1)
+        comp["dirs"] = ["companion"]
+        plan["companion"] = comp
+        n2 = lines
+        plan["rpcs"] = [r for r in dict.fromkeys(rpcs + [max(n2 // 2, 1), n2])][:4]
+    return plan
 
 
 def execute(plan):
@@ -49,6 +68,16 @@ def execute(plan):
     prod = w.product
     violations, keys, stats = [], [], {}
     try:
+        if plan.get("companion"):
+            try:
+                w2 = world.World(plan["companion"], fresh=False, slot=1)
+                for r in plan["rpcs"]:
+                    t2 = w2.open(use_cache=False, records_per_chunk=r)
+                    for _, da in image_vars(t2):
+                        da.values
+                stats["companion-products"] = 1
+            except Exception as e:  # noqa: BLE001 - the companion is not what is judged here
+                stats["companion-raised:" + type(e).__name__] = 1
         trees = []
         cached = plan["cached"]
         for k, r in enumerate(plan["rpcs"]):
